@@ -237,7 +237,9 @@ def _cached_decode_ssdp_packet(
         extra[LOWER__LOCATION_ORIGINAL] = location
         extra[LOWER_LOCATION] = get_adjusted_url(location, remote_addr_without_port)
 
-    headers = CaseInsensitiveDict(parsed_headers, **extra)
+    # Own data always wins over received headers, in whatever case they were
+    # spelled: combine_lower_dict points the case map at our own keys.
+    headers = CaseInsensitiveDict(parsed_headers).combine_lower_dict(extra)
     return request_line, headers
 
 
